@@ -31,25 +31,29 @@ structure Short (p : Params) : Prop where
   tid : p.tid.length < 65536
   tgid : p.tgid.length < 65536
 
+/-- `WF` is the bundled form of the lemma-file guard `PWF` -/
+theorem WF.toPWF {p : Params} (h : WF p) : PWF p :=
+  ⟨h.enc, h.comp, h.tid, h.tgid, h.clevel, h.cwinbits, h.tgcount, h.tgidx⟩
+
 /-- valid UTF-8 passes through json.Marshal's coercion unchanged -/
 theorem C17.sanitize_valid (b : Bytes) (h : utf8Valid b = true) : sanitize b = b := by
-  sorry
+  exact sanitize_of_valid b h
 
 /-- the output of the coercion is always valid UTF-8 (what the peer receives is well formed) -/
 theorem C17.sanitize_is_valid (b : Bytes) : utf8Valid (sanitize b) = true := by
-  sorry
+  exact utf8Valid_sanitize b
 
 /-- decimal rendering and parsing are inverse on Go ints -/
 theorem C17.int_roundtrip (i : Int) (h : inInt64 i) : parseQuoted (showInt i) = .int i := by
-  sorry
+  exact parseQuoted_showInt i h.1 h.2
 
 /-- key/value map carrier: every well-formed parameter set survives MarshalKeyValues / UnmarshalKeyValues -/
 theorem C17.kv_roundtrip (p : Params) (h : WF p) : unmarshalKV Params.zero (marshalKV p) = some p := by
-  sorry
+  exact unmarshalKV_marshalKV p (WF.toPWF h)
 
 /-- URL query values carrier (WebSocket, WebTransport) -/
 theorem C17.url_roundtrip (p : Params) (h : WF p) : unmarshalURL Params.zero (marshalURL p) = some p := by
-  sorry
+  exact unmarshalURL_marshalURL p (WF.toPWF h)
 
 /-- QUIC binary carrier -/
 theorem C17.bin_roundtrip (p : Params) (h : WF p) (hs : Short p) : unmarshalBin Params.zero (marshalBin p) = some p := by
@@ -74,18 +78,18 @@ theorem C17.bin_reader_exact (bs : Bytes) (hb : ∀ b ∈ bs, b < 256) (kvs : Li
 /-- URL values with an empty key, or a key with zero or several values, are rejected -/
 theorem C17.url_rejects (p0 : Params) (vals : List (Bytes × List Bytes))
     (h : ∃ e ∈ vals, e.1 = [] ∨ e.2.length ≠ 1) : unmarshalURL p0 vals = none := by
-  sorry
+  exact unmarshalURL_none p0 vals h
 
 /-- a numeric parameter whose value is not a decimal Go int (nor the literal null) is rejected, whatever else the map holds -/
 theorem C17.kv_rejects_non_numeric (p0 : Params) (kvs : List (Bytes × Bytes)) (k v : Bytes)
     (hk : k = tClevel ∨ k = tCwinbits ∨ k = tTgcount ∨ k = tTgidx) (hmem : (k, v) ∈ kvs)
     (hv : parseQuoted v = .err) : unmarshalKV p0 kvs = none := by
-  sorry
+  exact unmarshalKV_none_of_mem p0 kvs k v (applyKV_numeric_err k v hk hv) hmem
 
 /-- reconnect must be exactly "true" or "false" -/
 theorem C17.kv_rejects_bad_bool (p0 : Params) (kvs : List (Bytes × Bytes)) (v : Bytes)
     (hmem : (tReconnect, v) ∈ kvs) (hv : v ≠ ascii "true" ∧ v ≠ ascii "false") : unmarshalKV p0 kvs = none := by
-  sorry
+  exact unmarshalKV_none_of_mem p0 kvs tReconnect v (applyKV_bad_bool v hv.1 hv.2) hmem
 
 /-- Validate rejects exactly: unknown encoding, unknown compression type, level outside 0..9, window bits outside 0..32;
     an accepted set is returned unchanged except for the defaulted level. -/
@@ -95,11 +99,21 @@ theorem C17.validate_rejects (p : Params) :
        ¬ (p.comp = [] ∨ p.comp = tPerMessage ∨ p.comp = tTakeover) ∨
        (∃ l, p.clevel = some l ∧ (l < 0 ∨ l > 9)) ∨
        (∃ w, p.cwinbits = some w ∧ (w < 0 ∨ w > 32))) := by
-  sorry
+  rcases p with ⟨enc, comp, cl, cw, tid, rc, tgid, tgc, tgi⟩
+  simp only [validate]
+  by_cases h1 : (enc = [] ∨ enc = tJson ∨ enc = tProto) <;> simp only [h1, not_true, not_false_eq_true, if_true, if_false, true_or, false_or]
+  by_cases h2 : (comp = [] ∨ comp = tPerMessage ∨ comp = tTakeover) <;> simp only [h2, not_true, not_false_eq_true, if_true, if_false, true_or, false_or]
+  cases cl <;> cases cw <;> by_cases h3 : comp = [] <;> simp [h3, defaultLevel] <;> omega
 
 theorem C17.validate_accepts (p p' : Params) (h : validate p = some p') :
     p' = { p with clevel := if p.comp ≠ [] ∧ p.clevel = none then some defaultLevel else p.clevel } := by
-  sorry
+  rcases p with ⟨enc, comp, cl, cw, tid, rc, tgid, tgc, tgi⟩
+  simp only [validate] at h
+  split at h
+  · simp at h
+  · split at h
+    · simp at h
+    · cases cl <;> cases cw <;> by_cases h3 : comp = [] <;> simp [h3] at h ⊢ <;> (try split at h) <;> simp_all
 
 /-- The compression configuration derived from a parameter set that names its compression type, level and
     window is a function of those parameters alone: both ends enable the same mode, level and window
@@ -107,17 +121,30 @@ theorem C17.validate_accepts (p p' : Params) (h : validate p = some p') :
 theorem C17.config_function_of_params (p : Params) (b1 b2 : Config)
     (hl : p.clevel ≠ none) (hw : p.cwinbits ≠ none) (hc : p.comp = tPerMessage ∨ p.comp = tTakeover) :
     effective (compressConfig p b1) = effective (compressConfig p b2) := by
-  sorry
+  rcases p with ⟨enc, comp, cl, cw, tid, rc, tgid, tgc, tgi⟩
+  cases cl with
+  | none => simp at hl
+  | some l =>
+    cases cw with
+    | none => simp at hw
+    | some w =>
+      simp only [compressConfig]
+      rcases hc with hc | hc <;> simp only at hc <;> subst hc <;> by_cases h0 : l = 0 <;> simp [h0, effective, tPerMessage, tTakeover, ascii]
 
 /-- every dialer of the library produces such a set (DialConfig.NegotiationParams) … -/
 theorem C17.dial_names_all (c : DialConfig) :
     c.params.clevel ≠ none ∧ c.params.cwinbits ≠ none ∧ (c.params.comp = tPerMessage ∨ c.params.comp = tTakeover) := by
-  sorry
+  simp only [DialConfig.params, Config.type]
+  refine ⟨by simp, by simp, ?_⟩
+  split <;> simp
 
 /-- … and the configuration the peer derives from it is the dialer's own (when the dialer compresses at all). -/
 theorem C17.dial_config_agrees (c : DialConfig) (b : Config) (he : c.compress.enable = true) (hl : c.compress.level ≠ 0) :
     effective (compressConfig c.params b) = effective c.compress := by
-  sorry
+  rcases c with ⟨⟨en, lv, dt, wb⟩, enc, tid, rc, tgid, tgc, tgi⟩
+  simp only at he hl
+  subst he
+  cases dt <;> simp [DialConfig.params, Config.type, compressConfig, hl, effective, tPerMessage, tTakeover, ascii]
 
 /- non-vacuity: a concrete parameter set meets WF/Short and makes every round trip -/
 example : unmarshalKV Params.zero (marshalKV ⟨tProto, tTakeover, some 6, some 15, ascii "t-1", true, ascii "g", 3, 2⟩)
